@@ -13,7 +13,12 @@ This module:
      vs the Lean model vs the independent reference specification c18_ref.RefCache (the oracle);
  (b) deterministic schedule exploration (c18_sched) of get/set on a shared cache and of private-key
      operations on a shared Python_RSAKey, plus a short stress run with real threads;
- (c) the same for VerifierDB / BaseDB (in memory and on a temporary dbm file).
+ (c) the same for VerifierDB / BaseDB (in memory and on a temporary dbm file), plus sequential
+     scripts on the real VerifierDB vs the Lean BaseDB model vs a dict oracle in which the reserved
+     names are never entries.
+ Load independence: every directed family (hand-written histories, hand-written concurrent programs)
+ runs first and is never cut by a time budget; only seeded random programs sit behind the wall-clock
+ guard and a cut is counted as cut-by-budget:*.
 """
 import os
 
@@ -34,8 +39,12 @@ MANIFEST = {
             "concurrent_cache_correct: every complete interleaving of cache calls is explained by one serial history whose "
             "results are the specification's; concurrent_rsa_correct: for a well-formed key (C10's ValidKey) every interleaving of "
             "any number of threads calling _rawPrivateKeyOp returns m^d mod n for every call and keeps blinder*unblinder^e = 1 mod n "
-            "(C10's model rawPrivateKeyOp as sequential composition, its algebra proved in TlsProofs/RsaCorrect.lean, no hypothesis). Tie and search: sequential histories on the real class vs model vs an independent "
-            "Python reference; systematic schedule exploration (settrace scheduler, bounded preemptions) and stress runs on the "
+            "(C10's model rawPrivateKeyOp as sequential composition, its algebra proved in TlsProofs/RsaCorrect.lean, no hypothesis). "
+            "Tls.Db (model of BaseDB as used by VerifierDB: create/get/set/del/contains/keys/check, in memory and on disk with the "
+            "internal --Reserved--type record) refines a mapping of user entries in which reserved names never appear "
+            "(db_refines_spec, db_reserved_never_entry); lock_gives_linearizability (any lock-protected object with a sequential "
+            "model) and concurrent_db_correct (generated shapes of the BaseDB/VerifierDB methods) give the same for every interleaving. Tie and search: sequential histories on the real SessionCache and on the real VerifierDB (dict and "
+            "dbm file) vs models vs independent Python references; systematic schedule exploration (settrace scheduler, bounded preemptions) and stress runs on the "
             "real SessionCache, Python_RSAKey (results = pow(c,d,n), blinding pair stays matched) and VerifierDB, checked for "
             "linearizability against the reference.",
     "note": "Trusted: Lean kernel (propext, Classical.choice, Quot.sound), translate/gen_locks.py (reports per statement the self.* "
@@ -44,7 +53,8 @@ MANIFEST = {
             "universally quantified in concurrent_cache_correct, constrained only by the generated shape and by agreeing sequentially "
             "with the model (what the correspondence samples). Sessions are invalidated by callers outside any lock (a single attribute "
             "store) and invalidation is part of the sequential theorem only. Setup methods (__init__, BaseDB.create/open) are assumed "
-            "to finish before the object is shared. The RSA blinding/CRT algebra is imported from C10's proof modules "
+            "to finish before the object is shared; BaseDB.open() and sync() are not modelled; VerifierDB.check() with str names and "
+            "keys() with bytes names (sequential Python-3 TypeErrors) are not exercised. The RSA blinding/CRT algebra is imported from C10's proof modules "
             "(TlsProofs/RsaCorrect.lean, Mathlib number theory); the harness checks results against pow(c,d,n). maxEntries = 0 is outside "
             "the property (the first store raises IndexError; shown in Lean).",
     "technique": "Lean 4 refinement proof (circular-buffer invariant), reduction theorem for lock-protected sections over generated "
@@ -352,6 +362,217 @@ def flush(ctx, lc, batch):
 
 
 # ---------------------------------------------------------------------------------------------
+# (c) verifier database, sequentially: real VerifierDB (in memory and on a dbm file) vs the Lean
+#     BaseDB model vs an independent dict oracle in which reserved names are never entries
+# ---------------------------------------------------------------------------------------------
+
+DB_USERS = ["alice", "bob", "carol"]
+DB_PASSWORDS = ["pw-a", "pw-b"]
+DB_RESERVED = {1000: "--Reserved--type", 1001: "--Reserved--other"}
+# known sequential Python-3 type problems of VerifierDB, outside C18 (reported separately): check()
+# with str user names and keys() with bytes user names raise TypeError -> not exercised
+DB_FLAVOURS = [("mem", "str", ("create", "get", "set", "del", "in", "keys")),
+               ("mem", "bytes", ("create", "get", "set", "del", "in", "check")),
+               ("disk", "bytes", ("create", "get", "set", "del", "in", "check"))]
+
+
+def db_name(k, usertype):
+    n = DB_RESERVED[k] if k >= 1000 else DB_USERS[k]
+    return n if usertype == "str" else n.encode("ascii")
+
+
+def db_entries(usertype):
+    """value handle v = user + 10 * password  ->  verifier entry (computed once per tree)"""
+    from . import c18_sched as S
+    ents = S._db_entries(usertype, False)
+    return {(u + 10 * pw): e for (u, pw, e) in ents}, S._same_entry
+
+
+def run_db_real(mode, usertype, ops, path):
+    """-> list of canonical results"""
+    from tlslite.verifierdb import VerifierDB
+    ents, same = db_entries(usertype)
+    db = VerifierDB(path) if mode == "disk" else VerifierDB()
+    outs = []
+    try:
+        for op in ops:
+            try:
+                k = op[0]
+                if k == "create":
+                    if mode == "disk" and db.db is not None:
+                        db.db.close()
+                    db.create()
+                    outs.append("done")
+                elif k == "get":
+                    v = db[db_name(op[1], usertype)]
+                    hit = [h for h, e in ents.items() if same(v, e)]
+                    outs.append("val:%d" % hit[0] if hit else "garbage:" + repr(v)[:60])
+                elif k == "set":
+                    db[db_name(op[1], usertype)] = ents[op[2]]
+                    outs.append("done")
+                elif k == "del":
+                    del db[db_name(op[1], usertype)]
+                    outs.append("done")
+                elif k == "in":
+                    outs.append("bool:" + str(bool(db_name(op[1], usertype) in db)).lower())
+                elif k == "keys":
+                    names = []
+                    for u in db.keys():
+                        u = u.decode("ascii") if isinstance(u, bytes) else u
+                        if u in DB_USERS:
+                            names.append(DB_USERS.index(u))
+                        else:
+                            names.append(dict((v, kk) for kk, v in DB_RESERVED.items()).get(u, 9999))
+                    outs.append("names:" + (",".join(str(n) for n in sorted(names)) or "-"))
+                elif k == "check":
+                    pw = DB_PASSWORDS[op[2]]
+                    pw = pw if usertype == "str" else pw.encode("ascii")
+                    outs.append("bool:" + str(bool(db.check(db_name(op[1], usertype), pw))).lower())
+            except KeyError:
+                outs.append("KeyError")
+            except AssertionError:
+                outs.append("AssertionError")
+            except Exception as e:
+                outs.append("exception:" + type(e).__name__)
+    finally:
+        if mode == "disk":
+            try:
+                if db.db is not None:
+                    db.db.close()
+            except Exception:
+                pass
+            for ext in ("", ".dat", ".dir", ".bak", ".db", ".pag"):
+                try:
+                    os.unlink(path + ext)
+                except OSError:
+                    pass
+    return outs
+
+
+def run_db_oracle(mode, ops):
+    """the plain reading: a mapping of user entries; reserved names are never entries"""
+    opened = mode != "disk"
+    users = {}
+    outs = []
+    for op in ops:
+        k = op[0]
+        if k == "create":
+            opened, users = True, {}
+            outs.append("done")
+        elif not opened:
+            outs.append("AssertionError")
+        elif k == "set":
+            users[op[1]] = op[2]
+            outs.append("done")
+        elif k == "keys":
+            outs.append("names:" + (",".join(str(n) for n in sorted(users)) or "-"))
+        elif k == "in":
+            outs.append("bool:" + str(op[1] < 1000 and op[1] in users).lower())
+        elif op[1] >= 1000 or op[1] not in users:
+            outs.append("KeyError")
+        elif k == "get":
+            outs.append("val:%d" % users[op[1]])
+        elif k == "del":
+            del users[op[1]]
+            outs.append("done")
+        elif k == "check":
+            outs.append("bool:" + str(users[op[1]] == op[1] + 10 * op[2]).lower())
+    return outs
+
+
+def db_lean_lines(mode, ops):
+    lines = ["dbnew " + mode]
+    for op in ops:
+        lines.append("db " + " ".join(str(x) for x in op))
+    return lines
+
+
+def gen_db_script(rng, kinds, n_ops, mode):
+    ops = [] if (mode == "disk" and rng.random() < 0.3) else [["create"]]
+    vals = [u + 10 * p for u in range(len(DB_USERS)) for p in range(len(DB_PASSWORDS))]
+    for _ in range(n_ops):
+        k = rng.choice([x for x in ("get", "get", "set", "set", "set", "del", "in", "in", "keys", "check", "check", "create")
+                        if x in kinds and (x != "create" or rng.random() < 0.15)] or ["get"])
+        name = rng.choice([0, 0, 1, 1, 2, 1000, 1001]) if k in ("get", "in", "check") else rng.randrange(len(DB_USERS))
+        if k == "set":
+            ops.append(["set", name, rng.choice(vals)])
+        elif k == "check":
+            ops.append(["check", name, rng.randrange(len(DB_PASSWORDS))])
+        elif k in ("keys", "create"):
+            ops.append([k])
+        else:
+            ops.append([k, name])
+    return ops
+
+
+def db_sequential(ctx):
+    try:
+        from . import c18_sched  # noqa: F401  (verifier entries)
+    except ImportError:
+        return
+    import shutil
+    import tempfile
+    rng = ctx.rng
+    lc = ctx.lean()
+    d = tempfile.mkdtemp(prefix="c18_db_", dir="/tmp")
+    try:
+        counter = [0]
+        for mode, usertype, kinds in DB_FLAVOURS:
+            directed = [
+                [["get", 0], ["in", 0], ["create"], ["get", 1000], ["in", 1000], ["get", 1001], ["in", 1001],
+                 ["set", 0, 0], ["get", 1000], ["in", 1000], ["get", 0], ["in", 0], ["del", 0], ["del", 0], ["get", 0]],
+                [["create"], ["set", 0, 0], ["set", 1, 11], ["set", 0, 10], ["get", 0], ["get", 1], ["get", 2],
+                 ["del", 1], ["in", 1], ["in", 0], ["create"], ["in", 0], ["get", 0]],
+            ]
+            if "keys" in kinds:
+                directed.append([["create"], ["keys"], ["set", 2, 2], ["set", 0, 0], ["keys"], ["del", 2], ["keys"]])
+            if "check" in kinds:
+                directed.append([["create"], ["set", 0, 0], ["check", 0, 0], ["check", 0, 1], ["set", 0, 10], ["check", 0, 1],
+                                 ["check", 1, 0], ["check", 1000, 0], ["set", 1, 0], ["check", 1, 0]])
+            scripts = [[op for op in sc if op[0] in kinds] for sc in directed]
+            n_rand = ctx.pick(150, 1500) if mode == "mem" else ctx.pick(40, 300)
+            scripts += [gen_db_script(rng, kinds, rng.choice([6, 12, 25]), mode) for _ in range(n_rand)]
+            lines, runs = [], []
+            for ops in scripts:
+                counter[0] += 1
+                real = run_db_real(mode, usertype, ops, os.path.join(d, "db%d" % counter[0]))
+                want = run_db_oracle(mode, ops)
+                ctx.case(key=("dbseq", mode, usertype, tuple(tuple(o) for o in ops)), nontrivial=len(ops) > 1,
+                         sample={"mode": mode, "usertype": usertype, "ops": ops[:10], "real": real[:10]}
+                         if counter[0] % 97 == 0 else None)
+                ctx.count("dbseq:%s-%s" % (mode, usertype))
+                for k, (a, b) in enumerate(zip(real, want)):
+                    if a != b:
+                        resv = len(ops[k]) > 1 and ops[k][0] in ("get", "in", "check") and ops[k][1] >= 1000
+                        kind = "reserved-name-is-entry" if resv else \
+                            ("internal-error" if a.startswith("exception:") else "wrong-result")
+                        ctx.violation("c18:db-" + kind,
+                                      "VerifierDB (%s, %s names): operation %d %r gives %s, the specification says %s"
+                                      % (mode, usertype, k, ops[k], a, b),
+                                      {"stage": "db-sequential", "mode": mode, "usertype": usertype, "ops": ops[:k + 1],
+                                       "real": real[:k + 1], "spec": want[:k + 1]})
+                        break
+                lines.extend(db_lean_lines(mode, ops))
+                runs.append((ops, real, want))
+            if lc is not None:
+                out = lc.batch(lines)
+                pos = 0
+                for ops, real, want in runs:
+                    pos += 1
+                    for k in range(len(ops)):
+                        impl_m, spec_m = out[pos].split(" ")
+                        pos += 1
+                        ctx.compared()
+                        case = {"mode": mode, "usertype": usertype, "ops": ops[:k + 1]}
+                        if impl_m != real[k]:
+                            ctx.disagree("basedb-op", case, impl_m, real[k])
+                        if spec_m != want[k]:
+                            ctx.disagree("lean-dbspec-vs-python-oracle", case, spec_m, want[k])
+    finally:
+        shutil.rmtree(d, ignore_errors=True)
+
+
+# ---------------------------------------------------------------------------------------------
 # (b), (c) concurrency: schedule exploration and stress (c18_sched)
 # ---------------------------------------------------------------------------------------------
 
@@ -369,6 +590,8 @@ def concurrency(ctx):
         ctx.extra["schedules_" + name] = stats
         n = int(stats.get("schedules", 0))
         ctx.count("schedules:" + name, n)
+        if stats.get("cut_by_budget"):
+            ctx.count("cut-by-budget:schedules-" + name + "-random-programs", int(stats["cut_by_budget"]))
         for i in range(n):
             ctx.case(key=("sched", name, ctx.seed, i), sample=None)
         seen = set()
@@ -411,6 +634,9 @@ def run(ctx):
     t0 = ctx.elapsed()
     sequential(ctx)
     phase["sequential"] = round(ctx.elapsed() - t0, 1)
+    t0 = ctx.elapsed()
+    db_sequential(ctx)
+    phase["db_sequential"] = round(ctx.elapsed() - t0, 1)
     try:
         from . import c18_sched  # noqa: F401
     except ImportError:
@@ -428,6 +654,19 @@ def replay(ctx, rep):
         print("implementation:", run_real(inp["maxEntries"], inp["maxAge"], inp["ops"])[0])
         print("specification: ", run_ref(inp["maxEntries"], inp["maxAge"], inp["ops"]))
         return f is not None
+    if stage == "db-sequential":
+        import tempfile
+        import shutil
+        d = tempfile.mkdtemp(prefix="c18_db_", dir="/tmp")
+        try:
+            real = run_db_real(inp["mode"], inp["usertype"], inp["ops"], os.path.join(d, "db"))
+        finally:
+            shutil.rmtree(d, ignore_errors=True)
+        want = run_db_oracle(inp["mode"], inp["ops"])
+        print("history:", inp["ops"])
+        print("implementation:", real)
+        print("specification: ", want)
+        return real != want
     if stage == "schedule":
         from . import c18_sched as S
         fn = {"cache": S.replay_cache, "rsa": S.replay_rsa, "db": S.replay_db}[inp["target"]]
